@@ -12,17 +12,22 @@ C20_OPS = ["ModifyExpr", "RenameRule", "ChangeKind", "AddRule", "DeleteRule", "S
 def gen_jobs(ctx):
     th = ctx.thorough
     wide = dict(npaths=3, kinds=["rec", "alr"], names=["n1", "n2"],
-                bodies=["v1", "m:n1", "m:n2", "A:n1", "S:n1", "A:n2", "m:n1+m:n2", "m:n2+A:n1", "S:n2+A:n2"],
+                bodies=["v1", "m:n1", "m:n2", "A:n1", "S:n1", "A:n2", "m:n1+m:n2", "m:n2+A:n1", "S:n2+A:n1", "A:n2+S:n1"],
                 labs=["l1"], cmts=["none"], pads=[0, 1], maxrules=3, maxfork=5, commits=3 if not th else 4, baseadv=0, ops=C20_OPS)
     return [
         # (1) exhaustive: one provider name, recording and alerting, every reference kind, two files
         ("c20_gen_small.cfg", gh.cfg("EmitCase", npaths=2, kinds=["rec", "alr"], names=["n1"], bodies=["v1", "m:n1", "A:n1"],
                                       labs=["l1"], maxrules=2, maxfork=2, commits=1 if not th else 2,
                                       ops=["ModifyExpr", "ChangeKind", "AddRule", "DeleteRule", "DeleteFile", "RenameFile"]),
-         500 if not th else 6000, dict(workers=2 if not th else 6)),
+         400 if not th else 5000, dict(workers=2 if not th else 6)),
+        # (1b) exhaustive: two names, a dependant next to its provider in one file, ALERTS selectors for two alertnames
+        ("c20_gen_pair.cfg", gh.cfg("EmitCase", npaths=1, kinds=["rec", "alr"], names=["n1", "n2"], bodies=["v1", "m:n1", "A:n2+A:n1"],
+                                     labs=["l1"], maxrules=3, maxfork=3, commits=1,
+                                     ops=["ChangeKind", "DeleteRule", "RenameRule", "SwapRules"]),
+         300 if not th else 3000, dict(workers=2 if not th else 6)),
         # (2) simulation: three files, duplicate providers, two-selector expressions, replacements
-        ("c20_sim_wide.cfg", gh.cfg("EmitCase", **wide), 700 if not th else 9000,
-         dict(simulate=6 if not th else 50, depth=12 if not th else 14, workers=1)),
+        ("c20_sim_wide.cfg", gh.cfg("EmitCase", **wide), 500 if not th else 7000,
+         dict(simulate=6 if not th else 30, depth=12 if not th else 14, workers=1)),
     ]
 
 
@@ -31,11 +36,10 @@ def mc_jobs(ctx, mode):
     runs = [
         ("c20_mc.cfg", dict(npaths=2, kinds=["rec", "alr"], names=["n1"], bodies=["v1", "m:n1", "A:n1"], labs=["l1"],
                             maxrules=2, maxfork=2, commits=2 if not th else 3,
-                            ops=["ModifyExpr", "RenameRule", "ChangeKind", "AddRule", "DeleteRule", "DeleteFile", "RenameFile"] +
-                                (["AddFile", "RevertLast"] if th else []))),
+                            ops=["ModifyExpr", "RenameRule", "ChangeKind", "AddRule", "DeleteRule", "DeleteFile", "RenameFile"])),
         # duplicate providers over three files: removal subsets of a fixed rule population
         ("c20_mc_dups.cfg", dict(npaths=3, kinds=["rec"], names=["n1", "n2"], bodies=["v1", "m:n1", "m:n1+m:n2"], labs=["l1"],
-                                 maxrules=2, maxfork=3 if not th else 4, commits=2 if not th else 3,
+                                 maxrules=2, maxfork=3 if not th else 4, commits=2,
                                  ops=["DeleteRule", "DeleteFile", "RenameFile"])),
     ]
     return [(name, gh.cfg("Inv_C20", view=True, mode=mode, **kw), 4 if not th else 6) for name, kw in runs]
